@@ -9,7 +9,8 @@ S=${SEEDTRY_DIR:-/tmp/seedtry}
 mkdir -p $S
 if [ -d $S/repo ]; then git -C /repo worktree remove --force $S/repo 2>/dev/null; rm -rf $S/repo; fi
 git -C /repo worktree prune
-git -C /repo worktree add -q --detach $S/repo HEAD || exit 2
+for try in 1 2 3 4 5 6; do git -C /repo worktree add -q --detach $S/repo HEAD 2>/dev/null && break; sleep $try; done
+[ -d $S/repo/src ] || { echo "worktree could not be created"; exit 2; }
 ( cd $S/repo && { git apply --3way "$patch" 2>$S/apply.log || git apply "$patch" 2>>$S/apply.log; } ) || { echo "patch does not apply:"; cat $S/apply.log; git -C /repo worktree remove --force $S/repo; exit 3; }
 rm -rf $S/engine; mkdir -p $S/engine
 rsync -a --exclude target /verif/engine/ $S/engine/
